@@ -10,7 +10,9 @@ import (
 	"go/constant"
 	"go/token"
 	"go/types"
+	"sort"
 	"strings"
+	"sync/atomic"
 
 	"golang.org/x/tools/go/types/typeutil"
 )
@@ -342,6 +344,17 @@ func (r *Resolver) Val(e ast.Expr) *V {
 			if !c.IsField() {
 				if fv := r.Val(x.Fun); fv.Kind == "funclit" {
 					name = "lit:" + fv.Name
+					// a local predicate closure (subscribed := func(p peer.ID) bool { _, ok := tmap[p]; return ok }):
+					// its value is the returned expression with the arguments substituted
+					if fl, ok := fv.Node.(*ast.FuncLit); ok {
+						var cargs []*V
+						for _, a := range x.Args {
+							cargs = append(cargs, r.Val(a))
+						}
+						if sv := r.litSummary(fl, cargs, e); sv != nil {
+							return sv
+						}
+					}
 				} else if fv.Kind == "func" && fv.Name != "" {
 					// a local that holds a function or method value (check := p.validateX; check()): the call is a
 					// call of that function, with the bound receiver as first operand
@@ -370,9 +383,19 @@ func (r *Resolver) Val(e ast.Expr) *V {
 		if name == "time.Time.After" && len(args) == 2 {
 			name, args = "time.Time.Before", []*V{args[1], args[0]}
 		}
+		if fn, ok := callee.(*types.Func); ok {
+			if sv := r.valueSummary(fn, name, args, e); sv != nil {
+				return sv
+			}
+		}
 		return &V{Kind: "call", Name: name, Args: args, Obj: callee, Node: e}
 	case *ast.IndexExpr:
-		return &V{Kind: "index", Args: []*V{r.Val(x.X), r.Val(x.Index)}, Node: e}
+		xv, iv := r.Val(x.X), r.Val(x.Index)
+		// xs[i] inside `for i := range xs` is the range value of xs: one canonical form for both loop shapes
+		if iv != nil && iv.Kind == "rangekey" && len(iv.Args) == 1 && iv.Args[0].Equal(xv) {
+			return &V{Kind: "rangeval", Args: []*V{xv}, Node: e}
+		}
+		return &V{Kind: "index", Args: []*V{xv, iv}, Node: e}
 	case *ast.StarExpr:
 		return r.Val(x.X) // loads are transparent
 	case *ast.UnaryExpr:
@@ -502,10 +525,62 @@ func (p *Prog) CallsIn(f *Func, n ast.Node, deep bool) []CallSite {
 			return false
 		}
 		if c, ok := x.(*ast.CallExpr); ok {
-			out = append(out, CallSite{c, p.CalleeName(info, c), f})
+			name := p.CalleeName(info, c)
+			if strings.HasPrefix(name, "var:") {
+				// a local bound to a function or method value (push := q.Push; if urgent { push = q.UrgentPush }):
+				// the call is a call of each function the local can hold
+				if targets := p.funcLocalTargets(f, c.Fun); len(targets) > 0 {
+					for _, t := range targets {
+						out = append(out, CallSite{c, t, f})
+					}
+					return true
+				}
+			}
+			out = append(out, CallSite{c, name, f})
 		}
 		return true
 	})
+	return out
+}
+
+// funcLocalTargets: the functions a func-valued local can hold, when every definition of it is a function or
+// method value; nil otherwise (parameters, fields, closures).
+func (p *Prog) funcLocalTargets(f *Func, fun ast.Expr) []string {
+	id, ok := unparen(fun).(*ast.Ident)
+	if !ok {
+		return nil
+	}
+	obj, ok := f.Info().Uses[id].(*types.Var)
+	if !ok || obj.IsField() {
+		return nil
+	}
+	if p.inFuncTargets {
+		return nil
+	}
+	p.inFuncTargets = true
+	defer func() { p.inFuncTargets = false }()
+	res := p.R(f)
+	var out []string
+	seen := map[string]bool{}
+	n := 0
+	for _, d := range res.Defs(obj) {
+		if d.kind != "assign" || d.rhs == nil || d.idx >= 0 {
+			return nil
+		}
+		n++
+		v := res.Val(d.rhs)
+		if v == nil || v.Kind != "func" || v.Name == "" {
+			return nil
+		}
+		if !seen[v.Name] {
+			seen[v.Name] = true
+			out = append(out, v.Name)
+		}
+	}
+	if n == 0 {
+		return nil
+	}
+	sort.Strings(out)
 	return out
 }
 
@@ -736,4 +811,238 @@ func (r *Resolver) CopyRoot(obj types.Object) types.Object {
 		obj = src
 	}
 	return obj
+}
+
+// valueSummary: a multi-statement private helper that no rule names and whose every return hands back the same
+// expression over its parameters (`return gs.score.Score(p)` at the end of an extracted block) yields, as a value,
+// that expression with the arguments substituted. The call's side effects are not affected by this: effect rules
+// look at the call site, not at the value.
+var summaryDepth atomic.Int32
+
+func (r *Resolver) valueSummary(fn *types.Func, name string, args []*V, e ast.Expr) *V {
+	f := r.P.Fn(name)
+	if f == nil || f.Decl == nil || f.Body == nil || f.Pkg != r.F.Pkg || ast.IsExported(f.Decl.Name.Name) || f == r.F.Root() {
+		return nil
+	}
+	if len(f.Body.List) < 2 || f.Type.Results == nil || len(f.Type.Results.List) != 1 || len(f.Type.Results.List[0].Names) > 1 {
+		return nil
+	}
+	if isAnchor(f) {
+		return nil
+	}
+	if summaryDepth.Load() > 2 {
+		return nil
+	}
+	summaryDepth.Add(1)
+	defer summaryDepth.Add(-1)
+	// parameter objects in argument order (receiver first)
+	var params []types.Object
+	if f.Decl.Recv != nil {
+		for _, fl := range f.Decl.Recv.List {
+			for _, nm := range fl.Names {
+				params = append(params, f.Info().Defs[nm])
+			}
+			if len(fl.Names) == 0 {
+				params = append(params, nil)
+			}
+		}
+	}
+	for _, fl := range f.Type.Params.List {
+		for _, nm := range fl.Names {
+			params = append(params, f.Info().Defs[nm])
+		}
+		if len(fl.Names) == 0 {
+			params = append(params, nil)
+		}
+	}
+	if len(params) != len(args) {
+		return nil
+	}
+	var common *V
+	okAll := true
+	returnsIn(f, func(rs *ast.ReturnStmt) {
+		if len(rs.Results) != 1 {
+			okAll = false
+			return
+		}
+		v := r.P.R(f).Val(rs.Results[0])
+		if v == nil || v.Kind == "var" || v.Kind == "opaque" {
+			okAll = false
+			return
+		}
+		if common == nil {
+			common = v
+		} else if !common.Equal(v) {
+			okAll = false
+		}
+	})
+	if !okAll || common == nil {
+		return nil
+	}
+	var subst func(v *V) *V
+	bad := false
+	subst = func(v *V) *V {
+		if v == nil {
+			return nil
+		}
+		if v.Kind == "var" {
+			for i, po := range params {
+				if po != nil && v.Obj == po {
+					return args[i]
+				}
+			}
+			bad = true
+			return v
+		}
+		if v.Kind == "funclit" || v.Kind == "rangekey" || v.Kind == "rangeval" {
+			bad = true
+			return v
+		}
+		nv := &V{Kind: v.Kind, Name: v.Name, Obj: v.Obj, Node: v.Node}
+		for _, a := range v.Args {
+			nv.Args = append(nv.Args, subst(a))
+		}
+		return nv
+	}
+	out := subst(common)
+	if bad || out == nil {
+		return nil
+	}
+	// a wrapper around another function value (yield := func(r RPC) bool { return skip(r) || yieldRPC(r) }) is not a
+	// predicate: its calls stay calls
+	if out.Has(func(x *V) bool {
+		return x.Kind == "call" && (strings.HasPrefix(x.Name, "var:") || strings.HasPrefix(x.Name, "lit:") || strings.HasPrefix(x.Name, "dyn:") || strings.HasPrefix(x.Name, "field:"))
+	}) {
+		return nil
+	}
+	cp := *out
+	cp.Node = e
+	return &cp
+}
+
+// callReceiver: the receiver expression of a method call site — the selector operand, or, for a call through a local
+// bound to method values (push := q.Push; push = q.UrgentPush), the operand all of those method values share.
+func (p *Prog) callReceiver(cs CallSite) ast.Expr {
+	if se, ok := unparen(cs.Call.Fun).(*ast.SelectorExpr); ok {
+		return se.X
+	}
+	id, ok := unparen(cs.Call.Fun).(*ast.Ident)
+	if !ok {
+		return nil
+	}
+	obj, ok := cs.Fn.Info().Uses[id].(*types.Var)
+	if !ok {
+		return nil
+	}
+	res := p.R(cs.Fn)
+	var recv ast.Expr
+	var rv *V
+	for _, d := range res.Defs(obj) {
+		if d.kind != "assign" || d.rhs == nil {
+			return nil
+		}
+		se, ok := unparen(d.rhs).(*ast.SelectorExpr)
+		if !ok {
+			return nil
+		}
+		v := res.Val(se.X)
+		if rv == nil {
+			recv, rv = se.X, v
+		} else if !rv.Equal(v) {
+			return nil
+		}
+	}
+	return recv
+}
+
+
+// litSummary: the value of a call of a function literal bound to a local, when every return of the literal hands
+// back the same expression over its parameters and captured variables (see valueSummary).
+func (r *Resolver) litSummary(fl *ast.FuncLit, args []*V, e ast.Expr) *V {
+	f := r.P.FuncOf[fl]
+	if f == nil || f.Body == nil || f.Type.Results == nil || len(f.Type.Results.List) != 1 || len(f.Type.Results.List[0].Names) > 1 {
+		return nil
+	}
+	if summaryDepth.Load() > 2 {
+		return nil
+	}
+	summaryDepth.Add(1)
+	defer summaryDepth.Add(-1)
+	var params []types.Object
+	for _, pl := range f.Type.Params.List {
+		for _, nm := range pl.Names {
+			params = append(params, f.Info().Defs[nm])
+		}
+		if len(pl.Names) == 0 {
+			params = append(params, nil)
+		}
+	}
+	if len(params) != len(args) {
+		return nil
+	}
+	var common *V
+	okAll := true
+	nret := 0
+	returnsIn(f, func(rs *ast.ReturnStmt) {
+		nret++
+		if len(rs.Results) != 1 {
+			okAll = false
+			return
+		}
+		v := r.P.R(f).Val(rs.Results[0])
+		if v == nil || v.Kind == "var" || v.Kind == "opaque" {
+			okAll = false
+			return
+		}
+		if common == nil {
+			common = v
+		} else if !common.Equal(v) {
+			okAll = false
+		}
+	})
+	if !okAll || common == nil || nret == 0 {
+		return nil
+	}
+	bad := false
+	var subst func(v *V) *V
+	subst = func(v *V) *V {
+		if v == nil {
+			return nil
+		}
+		if v.Kind == "var" {
+			for i, po := range params {
+				if po != nil && v.Obj == po {
+					return args[i]
+				}
+			}
+			// captured from the enclosing function: fine; a local of the literal: not expressible outside it
+			if v.Obj != nil && v.Obj.Pos() >= fl.Pos() && v.Obj.Pos() <= fl.End() {
+				bad = true
+			}
+			return v
+		}
+		if v.Kind == "funclit" {
+			bad = true
+			return v
+		}
+		nv := &V{Kind: v.Kind, Name: v.Name, Obj: v.Obj, Node: v.Node}
+		for _, a := range v.Args {
+			nv.Args = append(nv.Args, subst(a))
+		}
+		return nv
+	}
+	out := subst(common)
+	if bad || out == nil {
+		return nil
+	}
+	// a wrapper around another function value (yield := func(r RPC) bool { return skip(r) || yieldRPC(r) }) is not a
+	// predicate: its calls stay calls
+	if out.Has(func(x *V) bool {
+		return x.Kind == "call" && (strings.HasPrefix(x.Name, "var:") || strings.HasPrefix(x.Name, "lit:") || strings.HasPrefix(x.Name, "dyn:") || strings.HasPrefix(x.Name, "field:"))
+	}) {
+		return nil
+	}
+	cp := *out
+	cp.Node = e
+	return &cp
 }
